@@ -42,10 +42,13 @@ def expected(ms):
 
 def member(rng, name_len=None, size=None, blank=False):
     names = [b"debian-binary", b"control.tar.gz", b"data.tar.xz", b"_gpgorigin", b"a", b"x.y", b"file with sp",
-             b"/7", b"/0", b"/123456", b"#1/20", b"__.SYMDEF", b"/abc"]      # GNU / BSD special spellings are plain names here
+             b"/7", b"/0", b"/123456", b"#1/20", b"__.SYMDEF", b"/abc",      # GNU / BSD special spellings are plain names here
+             # names that START with blanks, or end in a tab / CR (ar rc t.a ' x' x): only the column's trailing SPACE padding
+             # and one '/' are not part of the recorded name
+             b" x", b"  lead", b"\tx", b"x\t", b" a b ", b"\r", b"y\r", b" "]
     if name_len is None:
         name = rng.choice(names)
-        slash = rng.random() < 0.3 and len(name) < 16
+        slash = (rng.random() < 0.3 and len(name) < 16) or name.endswith(b" ")     # a name ending in a blank needs its '/' terminator
     else:
         name = (b"n" * name_len)
         slash = name_len < 16 and rng.random() < 0.5
